@@ -9,7 +9,7 @@ R __CPROVER_uninterpreted_sin(R);
 R __CPROVER_uninterpreted_cos(R);
 #define sin(x) __CPROVER_uninterpreted_sin(x)
 #define cos(x) __CPROVER_uninterpreted_cos(x)
-#define fabs(x) __builtin_fabs(x)
+#define fabs(x) __CPROVER_fabs(x)
 #define L2_SYMBOLS() do{ S2=nondet_R();S3=nondet_R();S5=nondet_R(); \
    __CPROVER_assume(S2*S2==2.0 && S2>0); __CPROVER_assume(S3*S3==3.0 && S3>0); __CPROVER_assume(S5*S5==5.0 && S5>0); }while(0)
 #endif
